@@ -46,7 +46,7 @@ TARGETS = {
     "generic-token/src/generic_token.rs": ("spl-generic-token", ["C16", "C17"], ["spl-generic-token", "spl-generic-token-tests"]),
     "generic-token/src/token.rs": ("spl-generic-token", ["C16", "C17"], ["spl-generic-token", "spl-generic-token-tests"]),
     "generic-token/src/token_2022.rs": ("spl-generic-token", ["C16", "C17"], ["spl-generic-token", "spl-generic-token-tests"]),
-    "discriminator/src/discriminator.rs": ("spl-discriminator", ["C18"], ["spl-discriminator"]),
+    "discriminator/src/discriminator.rs": ("spl-discriminator", ["C18", "C02", "C01"], ["spl-discriminator", "spl-type-length-value"]),
     "discriminator-syn/src/lib.rs": ("spl-discriminator-syn", ["C18"], ["spl-discriminator", "spl-type-length-value-derive-test"]),
     "discriminator-syn/src/parser.rs": ("spl-discriminator-syn", ["C18"], ["spl-discriminator"]),
     "program-error-derive/src/parser.rs": ("spl-program-error-derive", ["C19"], ["spl-program-error"]),
